@@ -28,6 +28,8 @@ class VirtualClock(object):
         return self.now
 
     def sleep(self, dt):
+        from . import realsleep
+        realsleep.duration(dt)          # raises as the real time.sleep does for a negative / NaN / non-number duration
         self.sleeps += 1
         self.now += dt
 
